@@ -396,8 +396,10 @@ def compare_programs(ctx, stream, cases, out, nontrivial=None):
             k = st['op'] + ('!' if 'error' in a else '')
             opstat[k] = opstat.get(k, 0) + 1
             # registers in an unspecified state: a documented shallow copy (Array.copy(deep=False), sort_legcharge, unary_blockwise)
-            # whose partner was written to in place afterwards ("in-place operations on one might or might not affect the other").
-            # The state propagates to everything computed from such a register; these are not compared (register index = step index).
+            # whose partner was written to in place afterwards AND whose value changed through that write in at least one configuration
+            # ("in-place operations on one might or might not affect the other").  The state propagates to everything computed from
+            # such a register; these are not compared (register index = step index).  A shallow copy that stayed intact in BOTH
+            # configurations remains a well-defined operand (it still shares buffers: the aliasing guards of the kernels are reached).
             opnd = [st[r] for r in ('a', 'b') if isinstance(st.get(r), int)]
             if any(o in tainted for o in opnd):
                 tainted.add(si)
@@ -406,7 +408,8 @@ def compare_programs(ctx, stream, cases, out, nontrivial=None):
                 continue
             if st['op'] in INPLACE_OPS and isinstance(st.get('a'), int):
                 x = st['a']
-                tainted.update(r for r in range(si) if r != x and rep[r] == rep[x])
+                seen = set(a.get('changed') or []) | set(b.get('changed') or [])
+                tainted.update(r for r in range(si) if r != x and rep[r] == rep[x] and r in seen)
             d = step_diff(a, b, rep)
             if d == ['shares'] and first is None:
                 # same results, but different tensors share memory: keep looking for the step where this becomes a
@@ -1165,5 +1168,12 @@ RULE = ('programs: random programs of 4-8 steps over tensors of rank 1-4 with 0-
         'iproject, squeeze, from_ndarray of a strided ndarray), then *=, /=, iscale_prefactor, +=, -=, iadd_prefactor_other, itranspose, '
         'iconj, tensordot, inner (also the workers directly), combine_legs with the fresh view as receiver AND as operand, partners with '
         'equal legs/qtotal (another slice of the same charge block, a new tensor, a copy); non-trivial when the compiled run executed at '
-        'least one such kernel on a tensor with non-C-contiguous blocks.  kernels: '
+        'least one such kernel on a tensor with non-C-contiguous blocks.  pair-classes: 18 deterministic strata (c04_gen.gen_pair_classes) over '
+        'the input classes of the 16 paired functions: tensordot with integer axes (dtype pair x layout x sortedness x 0-2 charges, fully '
+        'contracted operands, 3 contracted legs, > 64 result blocks), combine/split (rank 3-6, layouts, nested pipes, no blocks), '
+        'iadd_prefactor_other (dtype pair x prefactor class x same object / shallow copy / equal views / equal block tables x merge arms x '
+        'layouts + error classes), iscale_prefactor (dtype x prefactor class incl. non-scalars x layout), inner (dtype pair x do_conj x layout x '
+        'sortedness x disjoint blocks), argument forms and error classes of tensordot/inner, valid programs at optimization level 3; results '
+        'are used again.  coverage_audit (evidence): pair x input class -> calls per configuration and streams, branch table of the .pyx, line '
+        'table of the Python twins; any hole is a failure.  kernels: '
         'generated arguments of the helper functions (non-trivial always).  Each case is executed in BOTH configurations.')
